@@ -104,7 +104,8 @@ def arith(op, a, b):
 class FnCtx:
     """what may be assumed when analysing one function: parameter ranges and field invariants"""
 
-    def __init__(self, params=None, fields=None, used=None):
+    def __init__(self, params=None, fields=None, used=None, lens=None):
+        self.lens = lens or {}
         self.params = params or {}
         self.fields = fields or {}  # (adt path, field name) -> interval
         self.used = used if used is not None else set()  # invariants actually consulted
@@ -161,6 +162,13 @@ class Analysis:
         pk = place_key(p)
         if pk in st:
             return st[pk]
+        if len(pk[1]) >= 2 and pk[1][-2][0] == 'dc' and pk[1][-2][1] == 'Some' and pk[1][-1][0] == 'f':
+            base = (pk[0], pk[1][:-2])
+            if ('some', base) in st:
+                t0 = type_range(self.ty_of_place(p))
+                m0 = meet(st[('some', base)], t0) if t0 else st[('some', base)]
+                if m0 != 'empty':
+                    return m0
         t = self.ty_of_place(p)
         rng = type_range(t)
         if not p['p']:
@@ -205,6 +213,27 @@ class Analysis:
         k = rv['k']
         val = None
         newrel = None
+        aux = {}
+        if k in ('use', 'cast'):
+            p0 = op_place(rv['a'])
+            if p0 is not None:
+                for tag in ('len', 'some', 'issome', 'lenof', 'lensym'):
+                    if (tag, place_key(p0)) in st:
+                        aux[tag] = st[(tag, place_key(p0))]
+        if k == 'ref':
+            rp = place_key(rv['p'])
+            # &*x / &mut *x of a slice reference keeps its length
+            if rp[1] == (('deref', ), ) and ('len', (rp[0], ())) in st:
+                aux['len'] = st[('len', (rp[0], ()))]
+                if ('lensym', (rp[0], ())) in st:
+                    aux['lensym'] = st[('lensym', (rp[0], ()))]
+            else:
+                # & of an array-typed place
+                t0 = self.ty_of_place(rv['p'])
+                if t0 is not None and t0['k'] == 'array':
+                    ln = self.len_of_type(t0)
+                    if ln[0] == ln[1]:
+                        aux['len'] = ln
         if k == 'use':
             val = self.read_operand(st, rv['a'])
             p = op_place(rv['a'])
@@ -231,6 +260,14 @@ class Analysis:
             elif op.endswith('WithOverflow'):
                 aty = type_range(self.operand_ty(rv['a']))
                 r = arith(base, a, b)
+                if base == 'Sub' and r is not None and a is not None and self.known_lt(st, rv['b'], rv['a']):
+                    r = (max(r[0], 1), max(min(r[1], a[1]), 1))
+                if base == 'Add':
+                    f0 = self.sum_fact((lk[0], lk[1] + (('f', 0, '0'), )), rv['a'], rv['b'])
+                    for k2 in [k2 for k2 in st if k2 and k2[0] in FACT_TAGS and (lk[0], lk[1] + (('f', 0, '0'), )) in k2[1:]]:
+                        st.pop(k2)
+                    if f0 is not None:
+                        self.add_fact(st, f0)
                 st[(lk[0], lk[1] + (('f', 0, '0'), ))] = clip(r, aty) if aty else r
                 st[(lk[0], lk[1] + (('f', 1, '1'), ))] = (0, 1)
                 rel.pop(lk, None)
@@ -238,8 +275,16 @@ class Analysis:
             else:
                 aty = type_range(self.operand_ty(rv['a'])) or rng
                 r = arith(base, a, b)
+                if base == 'Rem' and b is not None and b[0] > 0 and a is not None and a[0] >= 0:
+                    bp = op_place(rv['b'])
+                    if bp is not None:
+                        self._new_facts = [('lt', lk, self.canon(place_key(bp)))]
+                if base == 'Add':
+                    self._new_facts = [self.sum_fact(lk, rv['a'], rv['b'])]
                 if base in ('Add', 'Sub', 'Mul', 'Shl'):
                     val = clip(r, aty) if aty else r
+                    if base == 'Sub' and self.known_lt(st, rv['b'], rv['a']) and val is not None and a is not None:
+                        val = (max(val[0], 1), min(val[1], a[1]) if val[1] >= 1 else val[1])
                 else:
                     val = r if r is not None else rng
                     if val is not None and rng is not None:
@@ -275,9 +320,13 @@ class Analysis:
             val = (0, 1 << 16)
         else:
             val = rng
-        # kill sub-places
+        # kill sub-places and auxiliary facts about the overwritten place
         for k2 in [k2 for k2 in st if k2[0] == lk[0] and k2 != lk and k2[1][:len(lk[1])] == lk[1]]:
             st.pop(k2)
+        for tag in ('len', 'some', 'issome', 'lenof', 'lensym'):
+            st.pop((tag, lk), None)
+        for tag, v3 in aux.items():
+            st[(tag, lk)] = v3
         if val is None:
             st.pop(lk, None)
         else:
@@ -289,6 +338,21 @@ class Analysis:
             rel[lk] = newrel
         else:
             rel.pop(lk, None)
+        # symbolic facts (x < y, x <= y, z = x + y): drop those about the overwritten place, copy them along plain
+        # copies / value-preserving casts, add the ones this statement produces
+        for k2 in [k2 for k2 in st if k2 and k2[0] in FACT_TAGS and lk in k2[1:]]:
+            st.pop(k2)
+        if k == 'use' or (k == 'cast' and self.cast_preserves(st, rv)):
+            p0 = op_place(rv['a'])
+            if p0 is not None:
+                srcs = {place_key(p0), self.canon(place_key(p0))}
+                for k2 in [k2 for k2 in list(st) if k2 and k2[0] in FACT_TAGS]:
+                    for src0 in srcs:
+                        if src0 in k2[1:]:
+                            st[(k2[0], ) + tuple(lk if x == src0 else x for x in k2[1:])] = st[k2]
+        for f in getattr(self, '_new_facts', []):
+            self.add_fact(st, f)
+        self._new_facts = []
         # relations mentioning the overwritten place become stale
         for k2 in [k2 for k2, r in rel.items() if k2 != lk and mentions(r, lk)]:
             rel.pop(k2)
@@ -297,8 +361,13 @@ class Analysis:
         p = op_place(o)
         if p is None:
             return (0, (1 << 63) - 1)
+        pk = place_key(p)
+        if ('len', pk) in st:
+            return st[('len', pk)]
+        if pk[1] == (('deref', ), ) and ('len', (pk[0], ())) in st:
+            return st[('len', (pk[0], ()))]
         t = self.ty_of_place(p)
-        return self.len_of_type(t, place_key(p), st)
+        return self.len_of_type(t, pk, st)
 
     def len_of_type(self, t, pk=None, st=None):
         types = self.fn.types
@@ -349,6 +418,11 @@ class Analysis:
             a, b = av
             if a is not None and b is not None:
                 val = (min(a[0], b[0]), min(a[1], b[1])) if short == 'min' else (max(a[0], b[0]), max(a[1], b[1]))
+            if short == 'min':
+                self._call_facts = []
+                for ao in args:
+                    for kk in self.keys_of(ao):
+                        self._call_facts.append(('le', dk, kk))
         elif short == 'clamp' and len(args) == 3:
             a, lo, hi = av
             if a is not None and lo is not None and hi is not None:
@@ -361,6 +435,8 @@ class Analysis:
         elif short == 'len' and callee in ('[T]::len', 'core::slice::<impl [T]>::len', 'str::len'):
             val = self.len_of_ref_operand(st, args[0]) if callee != 'str::len' else (0, (1 << 63) - 1)
             p = op_place(args[0])
+            if p is not None and callee != 'str::len':
+                self._set_aux2 = ('lenof', self.root_of_ref(place_key(p)))
             if p is not None and callee == 'str::len':
                 key = ('strlen', self.root_of_ref(place_key(p)))
                 if key in st:
@@ -371,6 +447,89 @@ class Analysis:
             p = op_place(args[0])
             if p is not None and callee == 'str::is_empty':
                 newrel = ('strempty', ('strlen', self.root_of_ref(place_key(p))))
+        elif callee in ('core::ops::index::Index::index', 'core::ops::index::IndexMut::index_mut') and len(args) == 2:
+            # slice[range]: the resulting slice's length
+            val = None
+            rinfo = self.range_operand(st, args[1], blk, self.len_of_ref_operand(st, args[0]), want_ops=True)
+            if rinfo is not None:
+                lo, hi, lo_op, hi_op = rinfo
+                if lo is not None and hi is not None:
+                    n = (max(hi[0] - lo[1], 0), max(hi[1] - lo[0], 0))
+                    sym = None
+                    lh = self.linear_of_operand(st, hi_op) if hi_op is not None else None
+                    ll = self.linear_of_operand(st, lo_op) if lo_op is not None else ({}, 0)
+                    if lh is not None and ll is not None:
+                        d = dict(lh[0])
+                        for sk, c in ll[0].items():
+                            d[sk] = d.get(sk, 0) - c
+                        d = {sk: c for sk, c in d.items() if c != 0}
+                        dc = lh[1] - ll[1]
+                        if all(c > 0 for c in d.values()):
+                            tot_lo, tot_hi = dc, dc
+                            known = True
+                            for sk, c in d.items():
+                                v = st.get(sk) or self.read_place_key(st, sk)
+                                if v is None:
+                                    known = False
+                                    break
+                                tot_lo += c * max(v[0], 0)
+                                tot_hi += c * v[1]
+                            if known and tot_lo >= 0:
+                                n = (max(n[0], tot_lo), min(n[1], tot_hi)) if tot_lo <= tot_hi else n
+                            sym = (frozenset(d.items()), dc)
+                    for k2 in [k2 for k2 in st if isinstance(k2[0], int) and k2[0] == dk[0] and k2[1][:len(dk[1])] == dk[1]]:
+                        st.pop(k2)
+                    for tag in ('len', 'some', 'issome', 'lensym', 'lenof'):
+                        st.pop((tag, dk), None)
+                    st[('len', dk)] = n
+                    if sym is not None:
+                        st[('lensym', dk)] = sym
+                    rel.pop(dk, None)
+                    return
+        elif callee in ('[T]::iter', '[T]::iter_mut', 'core::slice::<impl [T]>::iter') and len(args) == 1:
+            val = None
+            ln = self.len_of_ref_operand(st, args[0])
+            self._set_aux = ('len', ln)
+        elif callee.endswith(('Iterator::rposition', 'Iterator::position')) and len(args) == 2:
+            val = None
+            p0 = op_place(args[0])
+            ln = None
+            if p0 is not None:
+                tgt = self.refs.get(place_key(p0))
+                for cand in (place_key(p0), tgt):
+                    if cand is not None and ('len', cand) in st:
+                        ln = st[('len', cand)]
+            if ln is not None and ln[1] >= 1:
+                self._set_aux = ('some', (0, ln[1] - 1))
+        elif callee == 'char::to_digit' and len(args) == 2:
+            val = None
+            r = av[1]
+            if r is not None and r[1] >= 1:
+                self._set_aux = ('some', (0, r[1] - 1))
+        elif callee == 'char::from_digit' and len(args) == 2:
+            val = None
+            d, r = av
+            if d is not None and r is not None and d[1] < r[0] and r[1] <= 36:
+                self._set_aux = ('issome', (1, 1))
+        elif callee in ('core::option::Option::map_or', 'core::option::Option::map') and len(args) >= 2:
+            # result = default | closure(payload)
+            p0 = op_place(args[0])
+            payload = st.get(('some', place_key(p0))) if p0 is not None else None
+            clo = args[-1]
+            cty = self.operand_ty(clo)
+            cret = None
+            if payload is not None and cty is not None and cty['k'] == 'closure' and cty['def'] in self.facts.fns:
+                cf = self.facts.fns[cty['def']]
+                sub = Analysis(self.facts, cf, FnCtx({2: payload}, self.ctx.fields, self.ctx.used), self.summaries,
+                               self.depth + 1, collector=self.collector)
+                cret = sub.ret
+            if callee.endswith('map_or'):
+                dflt = av[1]
+                val = join(dflt, cret) if (dflt is not None and cret is not None) else rng
+            else:
+                val = None
+                if cret is not None:
+                    self._set_aux = ('some', cret)
         elif short in ('saturating_sub', 'wrapping_sub') and len(args) == 2:
             a, b = av
             if a is not None and b is not None and short == 'saturating_sub':
@@ -416,6 +575,22 @@ class Analysis:
                     st.pop(tgt)
         for k2 in [k2 for k2 in st if isinstance(k2[0], int) and k2[0] == dk[0] and k2[1][:len(dk[1])] == dk[1]]:
             st.pop(k2)
+        for tag in ('len', 'some', 'issome', 'lensym'):
+            st.pop((tag, dk), None)
+        sa = getattr(self, '_set_aux', None)
+        if sa is not None:
+            st[(sa[0], dk)] = sa[1]
+        self._set_aux = None
+        for k2 in [k2 for k2 in st if k2 and k2[0] in FACT_TAGS and dk in k2[1:]]:
+            st.pop(k2)
+        st.pop(('lenof', dk), None)
+        sa2 = getattr(self, '_set_aux2', None)
+        if sa2 is not None:
+            st[(sa2[0], dk)] = sa2[1]
+        self._set_aux2 = None
+        for f in getattr(self, '_call_facts', []) or []:
+            self.add_fact(st, f)
+        self._call_facts = []
         if val is not None:
             st[dk] = val
         if newrel is not None:
@@ -424,6 +599,132 @@ class Analysis:
             rel.pop(dk, None)
         for k2 in [k2 for k2, r in rel.items() if k2 != dk and mentions(r, dk)]:
             rel.pop(k2)
+
+    def range_operand(self, st, o, blk, base_len, want_ops=False):
+        """(start, end) intervals of a Range / RangeTo / RangeFrom aggregate operand"""
+        from analyses import last_def_in_block
+        rp = op_place(o)
+        if rp is None or rp['p']:
+            return None
+        cur = blk
+        d = None
+        for _ in range(4):
+            d = last_def_in_block(self.fn, cur, rp['l'])
+            if d is not None:
+                break
+            ps = [x for x in self.fn.pred(cur) if x in self.fn.reachable()]
+            if len(ps) != 1:
+                return None
+            cur = ps[0]
+        if d is None or d['rv']['k'] != 'agg' or d['rv'].get('ak') != 'adt':
+            return None
+        st2 = st
+        if cur != blk:
+            st2, _ = self.state_before_term(cur)
+            if st2 is None:
+                return None
+        raw = d['rv']['ops']
+        ops = [self.read_operand(st2, x) for x in raw]
+        adt = d['rv']['adt']
+        res = None
+        if adt.endswith('::Range'):
+            res = (ops[0], ops[1], raw[0], raw[1])
+        elif adt.endswith('::RangeTo'):
+            res = ((0, 0), ops[0], None, raw[0])
+        elif adt.endswith('::RangeFrom'):
+            res = (ops[0], base_len, raw[0], None)
+        elif adt.endswith('::RangeFull'):
+            res = ((0, 0), base_len, None, None)
+        if res is None:
+            return None
+        return res if want_ops else res[:2]
+
+    def canon(self, pk):
+        """a temp that is a plain copy of a longer-lived place stands for that place"""
+        src = self.copy_src.get(pk) if hasattr(self, 'copy_src') else None
+        return src if src is not None else pk
+
+    def cast_preserves(self, st, rv):
+        v = self.read_operand(st, rv['a'])
+        trng = type_range(self.fn.ty(rv['to']))
+        return v is not None and trng is not None and v[0] >= trng[0] and v[1] <= trng[1]
+
+    def sum_fact(self, zkey, ao, bo):
+        """z = x + y with x a place and y a place or a constant"""
+        ap, bp = op_place(ao), op_place(bo)
+        ac, bc = op_const(ao), op_const(bo)
+        if ap is not None and bp is not None:
+            return ('sum', zkey, self.canon(place_key(ap)), self.canon(place_key(bp)))
+        if ap is not None and bc is not None and bc.get('val') is not None:
+            return ('sum', zkey, self.canon(place_key(ap)), ('const', bc['val']))
+        if bp is not None and ac is not None and ac.get('val') is not None:
+            return ('sum', zkey, self.canon(place_key(bp)), ('const', ac['val']))
+        return None
+
+    def add_fact(self, st, f):
+        if f is None:
+            return
+        st[f] = (1, 1)
+        if f[0] in ('lt', 'le'):
+            # transitive closure one step: x <= y, y <= z  =>  x <= z
+            for k2 in [k2 for k2 in list(st) if k2 and k2[0] in ('lt', 'le') and k2[1] == f[2]]:
+                tag = 'lt' if 'lt' in (f[0], k2[0]) else 'le'
+                st[(tag, f[1], k2[2])] = (1, 1)
+
+    def keys_of(self, o):
+        p = op_place(o)
+        if p is None:
+            return set()
+        return {place_key(p), self.canon(place_key(p))}
+
+    def known_lt(self, st, xo, yo):
+        """is operand x known to be strictly below operand y?"""
+        return any(('lt', x, y) in st for x in self.keys_of(xo) for y in self.keys_of(yo))
+
+    def known_le(self, st, xo, yo):
+        xs, ys = self.keys_of(xo), self.keys_of(yo)
+        if xs & ys:
+            return True
+        return any((tag, x, y) in st for tag in ('lt', 'le') for x in xs for y in ys)
+
+    def linear(self, st, key, depth=0):
+        """({symbol_key: coeff}, const) expansion of a place through z = x + y facts"""
+        if isinstance(key, tuple) and key and key[0] == 'const':
+            return {}, key[1]
+        if depth < 6:
+            for k2 in st:
+                if k2 and k2[0] == 'sum' and k2[1] == key:
+                    a, ca = self.linear(st, k2[2], depth + 1)
+                    b, cb = self.linear(st, k2[3], depth + 1)
+                    out = dict(a)
+                    for sk, c in b.items():
+                        out[sk] = out.get(sk, 0) + c
+                    return out, ca + cb
+        v = st.get(key)
+        if v is not None and v[0] == v[1] and not (key and key[0] in FACT_TAGS):
+            return {}, v[0]
+        return {key: 1}, 0
+
+    def linear_of_operand(self, st, o):
+        c = op_const(o)
+        if c is not None and c.get('val') is not None:
+            return {}, c['val']
+        p = op_place(o)
+        if p is None:
+            return None
+        k0 = place_key(p)
+        lf = self.linear(st, k0)
+        if lf[0] == {k0: 1} and lf[1] == 0:
+            lf = self.linear(st, self.canon(k0))
+        return lf
+
+    def sum_of(self, st, zo):
+        """(x_key, y) if operand z is known to be x + y"""
+        for z in self.keys_of(zo):
+            for k2 in st:
+                if k2 and k2[0] == 'sum' and k2[1] == z:
+                    return k2[2], k2[3]
+        return None
 
     def root_of_ref(self, pk):
         seen = set()
@@ -455,12 +756,22 @@ class Analysis:
         for k3, v3 in st.items():
             if k3 and k3[0] == 'inv':
                 fields[k3[1:]] = v3
-        key = (callee, callee_inst, tuple(av), tuple(sorted(fields.items())))
+        key = (callee, callee_inst, tuple(av), tuple(sorted(fields.items())),
+               tuple(self.len_of_ref_operand(st, a) if op_place(a) is not None else None for a in args))
         if key in self.summaries:
             return self.summaries[key]
         self.summaries[key] = (None, None)  # recursion guard
         params = {i + 1: av[i] for i in range(len(av)) if av[i] is not None}
-        sub = Analysis(self.facts, cf, FnCtx(params, fields, self.ctx.used), self.summaries, self.depth + 1,
+        lens = {}
+        for i, a in enumerate(args):
+            p0 = op_place(a)
+            if p0 is not None:
+                t0 = self.ty_of_place(p0)
+                if t0 is not None and t0['k'] in ('ref', 'ptr'):
+                    ln = self.len_of_ref_operand(st, a)
+                    if ln != (0, (1 << 63) - 1):
+                        lens[i + 1] = ln
+        sub = Analysis(self.facts, cf, FnCtx(params, fields, self.ctx.used, lens), self.summaries, self.depth + 1,
                        inst=callee_inst, collector=self.collector)
         self.summaries[key] = (sub.ret, sub.established)
         return self.summaries[key]
@@ -482,6 +793,17 @@ class Analysis:
             na, nb = refine_cmp(op, a, b)
             if na == 'empty' or nb == 'empty':
                 return None
+            xp, yp = op_place(x), op_place(y)
+            if xp is not None and yp is not None:
+                xk, yk = self.canon(place_key(xp)), self.canon(place_key(yp))
+                if op == 'Lt':
+                    self.add_fact(st, ('lt', xk, yk))
+                elif op == 'Gt':
+                    self.add_fact(st, ('lt', yk, xk))
+                elif op == 'Le':
+                    self.add_fact(st, ('le', xk, yk))
+                elif op == 'Ge':
+                    self.add_fact(st, ('le', yk, xk))
             for o, nv in ((x, na), (y, nb)):
                 p = op_place(o)
                 if p is not None and nv is not None:
@@ -543,12 +865,28 @@ class Analysis:
                             self.copy_src[lk] = None
                 if s['k'] == 'assign' and s['rv']['k'] == 'ref' and not s['lhs']['p']:
                     self.refs[place_key(s['lhs'])] = place_key(s['rv']['p'])
+        for bi in fn.reachable():
+            t = fn.blocks[bi]['term']
+            if t['k'] == 'call' and t.get('callee') in ('core::convert::From::from', 'core::convert::Into::into') and \
+                    len(t['args']) == 1 and not t['dest']['p']:
+                p = op_place(t['args'][0])
+                dty = type_range(self.ty_of_place(t['dest']))
+                sty = type_range(self.ty_of_place(p)) if p is not None else None
+                if p is not None and dty is not None and sty is not None and sty[0] >= dty[0] and sty[1] <= dty[1]:
+                    lk = place_key(t['dest'])
+                    src = place_key(p)
+                    # follow one more copy step (the argument is usually a temp copy of the real place)
+                    src = self.copy_src.get(src) or src
+                    self.copy_src[lk] = src if lk not in self.copy_src else None
         # a temp assigned more than once is not a reliable alias
         counts = {}
         for bi in fn.reachable():
             for s in fn.blocks[bi]['stmts']:
                 if s['k'] == 'assign':
                     counts[place_key(s['lhs'])] = counts.get(place_key(s['lhs']), 0) + 1
+            t = fn.blocks[bi]['term']
+            if t['k'] == 'call':
+                counts[place_key(t['dest'])] = counts.get(place_key(t['dest']), 0) + 1
         for k2 in [k2 for k2, v in self.copy_src.items() if counts.get(k2, 0) > 1]:
             self.copy_src[k2] = None
         # the source of a copy must not be reassigned between copy and test: only trust sources assigned at most once
@@ -560,6 +898,9 @@ class Analysis:
         for i, iv in self.ctx.params.items():
             if iv is not None:
                 init[(i, ())] = iv
+        for i, iv in self.ctx.lens.items():
+            if iv is not None:
+                init[('len', (i, ()))] = iv
         heads = set(h for _, h in fn.back_edges())
         self.exit_blocks = []
         self.in_state = {0: (init, {})}
@@ -763,6 +1104,10 @@ class Analysis:
         return bool(t and t['k'] == 'bool')
 
     def type_range_of_key(self, key):
+        if key and key[0] in ('lt', 'le', 'sum', 'inv', 'issome', 'lensym', 'lenof'):
+            return None
+        if key and key[0] in ('len', 'some'):
+            return (0, (1 << 63) - 1)
         if not isinstance(key[0], int):
             return (0, (1 << 63) - 1)
         try:
@@ -823,11 +1168,15 @@ class Analysis:
                 return 'fail', 'shift amount %s not below the bit width %s' % (fmt(bb), bits)
             if r is not None and aty is not None and r[0] >= aty[0] and r[1] <= aty[1]:
                 return 'ok', '%s %s %s = %s within %s' % (fmt(a), msg['op'], fmt(bb), fmt(r), fmt(aty))
+            if msg['op'] == 'Sub' and aty is not None and aty[0] == 0 and self.known_lt(st, msg['ops'][1], msg['ops'][0]):
+                return 'ok', 'subtrahend is known to be strictly below the minuend (x %% y < y or a preceding comparison)'
             return 'fail', '%s %s %s = %s may leave %s' % (fmt(a), msg['op'], fmt(bb), fmt(r), fmt(aty))
         if kind == 'bounds':
             ln, ix = ops
             if ln is not None and ix is not None and ix[1] < ln[0] and ix[0] >= 0:
                 return 'ok', 'index %s < len %s' % (fmt(ix), fmt(ln))
+            if self.known_lt(st, msg['ops'][1], msg['ops'][0]):
+                return 'ok', 'index is known to be strictly below the length by a preceding comparison'
             return 'fail', 'index %s not provably below len %s' % (fmt(ix), fmt(ln))
         if kind in ('div0', 'rem0'):
             d = None
@@ -849,6 +1198,7 @@ class Analysis:
         return 'fail', 'unsupported assert kind ' + kind
 
 
+FACT_TAGS = ('lt', 'le', 'sum')
 NEG = {'Eq': 'Ne', 'Ne': 'Eq', 'Lt': 'Ge', 'Ge': 'Lt', 'Gt': 'Le', 'Le': 'Gt'}
 
 
